@@ -505,7 +505,7 @@ def run_history(hid, rng, sccache, model_fn, port, verdict, n_ops, known_ids):
             h = hashlib.sha1()
             snap = snapshot(tree)
             for k in sorted(snap):
-                if k.endswith(('.c', '.cpp', '.h', '.rsp')):
+                if k.endswith(('.c', '.cpp', '.h', '.rsp', '.i', '.ii', '.txt')):
                     h.update(k.encode() + b'\0' + snap[k][0] + b'\0')
             return h.hexdigest()
 
@@ -627,6 +627,43 @@ def run_history(hid, rng, sccache, model_fn, port, verdict, n_ops, known_ids):
             verdict.count('diag-style.' + (' '.join(st) or 'default'))
             do_compile('diagnostics style %s' % (' '.join(st) or '(default)'))
         fl.diag = []
+
+        # (1b) input that is ALREADY PREPROCESSED (.i / .ii): the compiler does not preprocess it again, so neither -D nor the
+        #      macro names of the dialect may touch its text; produced by a real -E run of a unit that mentions __LINE__
+        psrc, pout = ('unit.cpp', 'unit.ii') if cxx else ('unit.c', 'unit.i')
+        clock[0] += 1
+        write_file(tree, psrc, b'struct os { int unix; int linux; };\nint keep_ident(int a) {\n  struct os o; o.unix = a; o.linux = __LINE__;\n'
+                               b'  return o.unix + o.linux;\n}\n', clock[0])
+        rc, out, err = run([compiler, '-std=c++14' if cxx else '-std=c11', '-E', psrc, '-o', pout], tree, srv.env(envx))
+        if rc == 0:
+            t = BASE_MTIME + clock[0] * 100
+            os.utime(os.path.join(tree, pout), (t, t))
+            verdict.count('preprocessed-input')
+            for note in ('already preprocessed input', 'already preprocessed input, again'):
+                do_compile(note, args=['-Dkeep_ident=renamed_by_a_second_preprocessing', '-O1', '-c', pout, '-o', 'unit.o'])
+            do_compile('already preprocessed input, GNU dialect', args=['-std=gnu++14' if cxx else '-std=gnu11', '-c', pout, '-o', 'unit.o'])
+
+        # (1c) a file whose CONTENTS are hashed besides the source (clang: sanitizer ignore list): rewritten normally, with the
+        #      same size and a new mtime, and with the same size and the SAME mtime - all within one server lifetime
+        if fl.clang:
+            ssrc = 'san.cpp' if cxx else 'san.c'
+            clock[0] += 1
+            write_file(tree, ssrc, b'int garr[8];\nint ff(int i) { return garr[i]; }\nint gg(int i) { return garr[i + 1]; }\n', clock[0])
+            sargs = ['-O1', '-fsanitize=address', '-fsanitize-blacklist=ignore.txt', '-c', ssrc, '-o', 'san.o']
+            clock[0] += 1
+            write_file(tree, 'ignore.txt', b'fun:ff\n', clock[0])
+            do_compile('extra hashed file, first contents', args=sargs)
+            clock[0] += 1
+            write_file(tree, 'ignore.txt', b'fun:nothing_of_this_name\n', clock[0])
+            do_compile('extra hashed file rewritten (other size)', args=sargs)
+            clock[0] += 1
+            write_file(tree, 'ignore.txt', b'fun:gg\n', clock[0])
+            do_compile('extra hashed file rewritten (same size as the first, new mtime)', args=sargs)
+            same = clock[0]
+            for content in (b'fun:ff\n', b'fun:gg\n', b'fun:ff\n'):
+                write_file(tree, 'ignore.txt', content, same)
+                do_compile('extra hashed file rewritten (same size, SAME mtime): %s' % content.decode().strip(), args=sargs)
+            verdict.count('extra-hash-file-block')
 
         # (2) the header search path given through the ENVIRONMENT, two directories with a same-named header of different contents
         var = rng.choice(['CPATH', 'CPLUS_INCLUDE_PATH' if cxx else 'C_INCLUDE_PATH'])
